@@ -117,6 +117,7 @@ def run(ctx):
     ctx.notes["grid_points_checked"] = 3 * 256 * (5 * 4 * 4 * 3 if level == 1 else 8 * 7 * 7 * 5)
     mc = ctx.instance("MC_NeedleFiles", "NeedleLayout", "NeedleLayout_mc.cfg", {"MaxOps": 3, "Level": level})
     hists = ctx.generate(mc, workers=4, timeout=1200)
+    hists.sort(key=lambda h: json.dumps(h, sort_keys=True))   # TLC emits in worker order
     execs = []
     for h in hists:
         ops = list(h["ops"])
